@@ -206,7 +206,46 @@ class EncodeMessage(Contract):
         for i, c in enumerate(S.wellformed(enc)):
             out['spec-wellformed.%d' % i] = c
         out['status-byte-fixed-by-type-and-channel'] = eq(at(rv, 0), S.TYPES[t]['status'] + (mv['channel'] if S.TYPES[t]['channel'] else 0))
+        # the caller owns the list it gets: it is built by this call, never an object shared with other calls (a caller that
+        # extends a shared list would corrupt the encoding of every later message of that type)
+        if not h.sym:
+            import mido.messages.encode as E
+            out['result-is-a-new-list-owned-by-the-caller'] = E.encode_message(dict(h.m)) is not r
         return out
+
+
+_TWICE = Harness('''
+    def do(m):
+        a = m.bytes()
+        b = m.bytes()
+        a.append(0)
+        return (a, b, m.bytes())
+''')
+
+
+@contract
+class BytesOwnedByCaller(Contract):
+    """bytes() hands out a list that belongs to the caller: two calls give two different list objects, and changing one
+    result changes neither the other nor what the message encodes to afterwards"""
+    key = 'C01.bytes-result-owned-by-the-caller'
+    target = 'mido.messages.messages:BaseMessage.bytes'
+    properties = ('C01',)
+    configs = tuple({'type': t} for t in S.ALL_TYPES)
+    raises = {}
+    symbolic_only = True
+
+    def callee(self, h, cfg):
+        return _TWICE.get(h)
+
+    def inputs(self, h, cfg):
+        h.mo = msg_obj(h, cfg['type'], time='int')
+        return [h.mo], {}
+
+    def ensures(self, h, cfg, a, r):
+        x, y, z = r
+        enc = S.spec_encode(cfg['type'], {k: V(v) for k, v in attrs_of(h.mo).items() if k not in ('type', 'time')})
+        return {'two-calls-two-list-objects': x is not y and y is not z and x is not z,
+                'editing-one-result-leaves-the-others-alone': And(eq(V(y), enc), eq(V(z), enc))}
 
 
 # ====================================================================== Message objects (C01)
